@@ -309,6 +309,43 @@ func startReinit(c *Ctx, A *Cluster, tag string, withJunk, adapt bool, forgedOpt
 	if err != nil {
 		return B, nil, fmt.Errorf("GenerateReDKGMessage failed: %w", err)
 	}
+	// the generator against its model (Node/GenReDKG.v): which messages of the log the file keeps, and
+	// the round, threshold and participants it names
+	{
+		var sb strings.Builder
+		fmt.Fprintf(&sb, "genredkg %d", len(log))
+		for _, m := range log {
+			ev := m.Event
+			if ev == "" {
+				ev = "-"
+			}
+			thr, parts := 0, []string{}
+			if m.Event == "event_sig_proposal_init" {
+				var req requests.SignatureProposalParticipantsListRequest
+				if json.Unmarshal(m.Data, &req) == nil {
+					thr = req.SigningThreshold
+					for _, p := range req.Participants {
+						parts = append(parts, fmt.Sprint(tok.Tok(p.Username)))
+					}
+				}
+			}
+			fmt.Fprintf(&sb, " %s %d %d %d %s", ev, tok.Tok(m.DkgRoundID), thr, len(parts), strings.Join(parts, " "))
+		}
+		var kept, names []string
+		j := 0
+		for _, km := range re.Messages {
+			for j < len(log) && !(log[j].Event == km.Event && log[j].DkgRoundID == km.DkgRoundID && log[j].SenderAddr == km.SenderAddr && bytes.Equal(log[j].Data, km.Data) && bytes.Equal(log[j].Signature, km.Signature) && log[j].RecipientAddr == km.RecipientAddr) {
+				j++
+			}
+			kept = append(kept, fmt.Sprint(j))
+			j++
+		}
+		for _, p := range re.Participants {
+			names = append(names, fmt.Sprint(tok.Tok(p.Name)))
+		}
+		c.Case("generator", true, strings.Join(strings.Fields(sb.String()), " "),
+			fmt.Sprintf("genredkg id=%d thr=%d parts=%s kept=%s", tok.Tok(re.DKGID), re.Threshold, strings.Join(names, ","), strings.Join(kept, ",")))
+	}
 	if adapt {
 		if re, err = node.GetAdaptedReDKG(re); err != nil {
 			return B, nil, fmt.Errorf("GetAdaptedReDKG failed: %w", err)
